@@ -36,21 +36,22 @@ CovRadius100 == [z \in {1, 6, 7, 8, 9, 14, 15, 16, 17, 35, 53} |->
 Mass1000 == [z \in DOMAIN CovRadius100 |->
    CASE z = 1 -> 1008 [] z = 6 -> 12011 [] z = 7 -> 14007 [] z = 8 -> 15999 [] z = 9 -> 18998 [] z = 14 -> 28086 [] z = 15 -> 30974
      [] z = 16 -> 32065 [] z = 17 -> 35453 [] z = 35 -> 79904 [] z = 53 -> 126904]
-BondTol100 == 40
+BondTol100 == 40                       \* the library's default bonding tolerance (callers may ask for another)
 GuardBand100 == 8
 (* a row <<za, zb, lo, hi>> of the threshold table in grid units^2 on a grid of N points per cell edge whose Gram unit is
    u^2 = u2m * 1e-6 A^2:  lo <= ((T - band)/100)^2 N^2 / u^2  and  hi >= ((T + band)/100)^2 N^2 / u^2  with T the sum of the two
    radii plus the bonding tolerance; neither looser than that by more than 2 grid units^2 *)
-ThrRowOK(r, N, u2m) ==
+ThrRowOK(r, N, u2m, tol100) ==
   /\ r[1] \in DOMAIN CovRadius100 /\ r[2] \in DOMAIN CovRadius100
-  /\ LET T == CovRadius100[r[1]] + CovRadius100[r[2]] + BondTol100
+  /\ LET T == CovRadius100[r[1]] + CovRadius100[r[2]] + tol100
          xlo == BMulInt(BFromInt((T - GuardBand100) * (T - GuardBand100)), N * N * 100)      \* x u2m
          xhi == BMulInt(BFromInt((T + GuardBand100) * (T + GuardBand100)), N * N * 100)
          U == BFromInt(u2m)
      IN /\ r[3] >= 0 /\ r[4] > r[3]
         /\ BLe(BMulInt(U, r[3]), xlo) /\ BLt(xlo, BMulInt(U, r[3] + 3))
         /\ BLe(xhi, BMulInt(U, r[4])) /\ BLt(BMulInt(U, r[4] - 3), xhi)
-ThresholdsOK(tbl, N, u2m) == u2m > 0 /\ \A i \in DOMAIN tbl : ThrRowOK(tbl[i], N, u2m)
+ThresholdsTolOK(tbl, N, u2m, tol100) == u2m > 0 /\ tol100 \in 10..120 /\ \A i \in DOMAIN tbl : ThrRowOK(tbl[i], N, u2m, tol100)
+ThresholdsOK(tbl, N, u2m) == ThresholdsTolOK(tbl, N, u2m, BondTol100)
 MassesOK(mass) == \A i \in DOMAIN mass : mass[i][1] \in DOMAIN Mass1000 /\ mass[i][2] = Mass1000[mass[i][1]]
 
 (* every atom within sqrt(MaxHi) of an atom lies in the 27 cells around that atom's cell *)
